@@ -8,6 +8,7 @@ import MetricsVerif.Driver.Prom
 import MetricsVerif.Driver.OnceCell
 import MetricsVerif.Driver.Recoverable
 import MetricsVerif.Driver.GenRace
+import MetricsVerif.Driver.IdleRace
 import MetricsVerif.Driver.Layers
 import MetricsVerif.Driver.Tracing
 import MetricsVerif.Driver.Recency
@@ -26,6 +27,7 @@ import MetricsVerif.Driver.StatsdAgg
 import MetricsVerif.Driver.C15
 import MetricsVerif.Driver.Tcp
 import MetricsVerif.Driver.TcpProd
+import MetricsVerif.Driver.PromConc
 
 open MetricsVerif.Driver
 
@@ -66,6 +68,7 @@ def step (st : DState) (line : String) : DState × String :=
     | none => (st, "bad-op")
   | "recover" :: args => (st, (Recoverable.handle args).getD "bad-op")
   | "genrace" :: args => (st, (GenRace.handle args).getD "bad-op")
+  | "idlerace" :: args => (st, (IdleRace.handle args).getD "bad-op")
   | "cell" :: args => (st, (OnceCell.handle args).getD "bad-op")
   | "recency" :: args =>
     match Recency.handle st.recency args with
@@ -80,6 +83,7 @@ def step (st : DState) (line : String) : DState × String :=
     | some (c, o) => ({ st with cow := c }, o)
     | none => (st, "bad-op")
   | "bucket" :: args => (st, (Bucket.handle args).getD "bad-op")
+  | "promconc" :: args => (st, (PromConc.handle args).getD "bad-op")
   | "reservoir" :: args =>
     match Reservoir.handle st.reservoir args with
     | some (r, o) => ({ st with reservoir := r }, o)
